@@ -17,6 +17,13 @@ CHECKS = {
             "Own wire builders (vf/peers/h1.py, h2.py on hyperframe+hpack) define ground truth; responses are sampled, cut "
             "positions exhaustive per response up to 1200 wire bytes (structural offsets + grid beyond).",
             "3 C02"),
+    "C03": ("exploration",
+            "Hypothesis-generated requests decoded by an independent parser (own HTTP/1.1 parser; hyperframe+hpack for HTTP/2) and compared with the caller's request",
+            "Generated legal and definitely-illegal requests over HTTP/1.1 and HTTP/2, first use and reuse, three API entry points, "
+            "plus GOAWAY-refused re-sends; every transmission is decoded independently and must equal the caller's request, illegal "
+            "heads must raise LocalProtocolError with nothing written.",
+            "Own decoders are the reference; header-name case on HTTP/1.1 and connection-specific headers are outside the oracle.",
+            "3 C03"),
     "C18": ("translation_validation",
             "exhaustive line-by-line re-translation with the repository's own unasync_line + generated sync/async differential",
             "Every line of every _async/_sync file pair is re-translated and compared (exhaustive over the source); generated "
